@@ -1,5 +1,5 @@
 (* Properties/C03.v — Field-level permissions are enforced on every path to the data.  Statements only. *)
-From V Require Import Base.Util Gql.Ast Model.Perm Model.PermFilter Model.Plan Proofs.PermFilterProofs Proofs.PlanProofs.
+From V Require Import Base.Util Gql.Ast Model.Perm Model.PermFilter Model.PermSpec Model.Plan Proofs.PermFilterProofs Proofs.PlanProofs Proofs.PermSpecProofs.
 
 (* every field that survives filtering lies on a field-name path the permission tree allows (walking the tree as
    filterFields does); with allow-all the selection is untouched and no error is raised *)
@@ -21,6 +21,19 @@ Theorem C03_no_leak_downstream : forall c root ss steps,
   plan c root ss = Ok steps -> incl (flat_map sfields steps) (flat_map ufields ss).
 Proof. exact plan_sub. Qed.
 Print Assumptions C03_no_leak_downstream.
+
+(* filterFields IS the specification.  Model/PermSpec.v states, from the documentation and [allows] alone, which selection
+   survives (a field is kept iff the path of field names from the root to it is allowed; fragments add no segment; meta fields
+   are always allowed) and which paths are reported; for EVERY permission tree, every node of it reached through nodes that are
+   not allow-all, and every selection without a sub-selection under __typename, the model of auth.go's filterFields returns
+   exactly that selection and exactly those paths, rendered "root.a.b access disallowed".  So: nothing outside the allowed set
+   survives, everything inside does (the authorized part is what the client would have sent), and every removed field is
+   reported once, by its path. *)
+Theorem C03_filter_is_the_specification : forall root pre s p a,
+  at_path root p a -> af_all a = false -> wf_sel s = true ->
+  filter_sel (pre ++ p) a s = (fst (spec_filter root p s), render pre (snd (spec_filter root p s))).
+Proof. exact filter_is_spec. Qed.
+Print Assumptions C03_filter_is_the_specification.
 
 Example C03_example :
   filter_fields ["query"] (AF false [("movies", AF false [("title", AF false [])])])
